@@ -10,7 +10,7 @@ use std::str::FromStr;
 fn iter_case<C: CI, const K: usize, S: KS>(ctx: &mut Ctx) {
     let a = C::alpha();
     let name = C::NAME;
-    if ctx.lite && !ctx.mine(K) {
+    if ctx.lite && !ctx.mine_group(K) {
         return;
     }
     let pw = per_word(a.bits);
@@ -98,7 +98,7 @@ fn iter_case<C: CI, const K: usize, S: KS>(ctx: &mut Ctx) {
 fn cons_case<C: CI, const K: usize, S: KS>(ctx: &mut Ctx) {
     let a = C::alpha();
     let name = C::NAME;
-    if ctx.lite && !ctx.mine(K + 1) {
+    if ctx.lite && !ctx.mine_group(K + 1) {
         return;
     }
     let noff = n_offsets(a.bits);
@@ -107,9 +107,18 @@ fn cons_case<C: CI, const K: usize, S: KS>(ctx: &mut Ctx) {
             if ctx.over() {
                 break;
             }
-            for n in [K, K - 1, K + 1, 0, 2 * K] {
+            // (n, None) = ordinary; (K, Some(pad)) = exact-fit: the window is the tail of an allocation without spare
+            // words and starts at symbol `pad` (0, one or two whole words in, or unaligned), first round only
+            let w = exact_fit_cases(a.bits)[0].0;
+            let mut plan: Vec<(usize, Option<usize>)> = vec![(K, None), (K - 1, None), (K + 1, None), (0, None), (2 * K, None)];
+            if r == 0 {
+                let ex = [(K, Some(0)), (K, Some(w)), (K, Some(2 * w)), (K, Some(1)), (K + 1, Some(w))];
+                if ctx.lite { plan.splice(0..0, ex); } else { plan.extend(ex); }
+            }
+            for (n, exact_pad) in plan {
+                let _fit = exact_pad.map(|_| exact_fit_mode());
                 let codes = rand_codes(&mut ctx.rng, a, n);
-                let pad = ctx.rng.below(noff);
+                let pad = exact_pad.unwrap_or_else(|| ctx.rng.below(noff));
                 let p = Padded::<C>::new(&mut ctx.rng, pad, &codes, 2);
                 ctx.eval();
                 let what = format!("{name} K={K} {} from slice of {n} symbols at pad {pad}", S::NAME);
@@ -128,7 +137,7 @@ fn cons_case<C: CI, const K: usize, S: KS>(ctx: &mut Ctx) {
                     Ok(Err(_)) => check!(ctx, n != K, format!("Kmer::try_from(&slice)|{name}|{}|refuses-right-length", S::NAME), "{what}: Err for a slice of exactly K symbols"),
                     Err(pm) => check!(ctx, false, format!("Kmer::try_from(&slice)|{name}|{}|panics", S::NAME), "{what}: panicked: {pm}"),
                 }
-                cell!(ctx, "{name}/construct/{}", if n == K { "n=K" } else if n == 0 { "n=0" } else if n < K { "n<K" } else { "n>K" });
+                cell!(ctx, "{name}/construct/{}{}", if n == K { "n=K" } else if n == 0 { "n=0" } else if n < K { "n<K" } else { "n>K" }, if exact_pad.is_some() { "/exact-fit" } else { "" });
             }
             // from_str
             let codes = rand_codes(&mut ctx.rng, a, K);
@@ -175,7 +184,7 @@ fn cons_case<C: CI, const K: usize, S: KS>(ctx: &mut Ctx) {
 fn cons_owned<C: CI, const K: usize, S: KS>(ctx: &mut Ctx) {
     let a = C::alpha();
     let name = C::NAME;
-    if ctx.lite && !ctx.mine(K + 2) {
+    if ctx.lite && !ctx.mine_group(K + 2) {
         return;
     }
     ctx.group(&format!("{name}/construct-from-owned/K{K}"), |ctx| {
@@ -285,12 +294,28 @@ fn literals(ctx: &mut Ctx) {
 
 fn main() {
     run_main("C08", |ctx| {
+        ctx.first_use_race(3, |t| {
+            let d: Seq<Dna> = "ACGTTGCAACGTACGTACGTACGTACGTACGTTTGACACGTTGCAACGTACGTACGTACGTACGTACGTTTGAC".try_into().unwrap();
+            let i: Seq<Iupac> = "ACGTRYSWKMBDHVN-ACGTRYSWKMBDHVN-ACGT".try_into().unwrap();
+            let m: Seq<Amino> = "MAGICLIFEQRSTVWY*".try_into().unwrap();
+            (
+                d[t..].kmers::<8>().map(|k| k.to_string()).collect::<Vec<String>>(),
+                d.kmers::<32>().map(|k| usize::from(&k)).collect::<Vec<usize>>(),
+                i[t..].kmers::<5>().map(|k| k.to_string()).collect::<Vec<String>>(),
+                m.kmers::<3>().map(|k| k.to_string()).collect::<Vec<String>>(),
+                Kmer::<Dna, 40, u128>::try_from(&d[t..t + 40]).map(|k| k.to_string()).ok(),
+                Kmer::<Iupac, 20, u128>::try_from(&i[t..t + 20]).map(|k| k.to_string()).ok(),
+                Kmer::<Dna, 8>::from_str("ACGTACGT").map(|k| k.to_string()).ok(),
+                Kmer::<Dna, 8>::try_from(&d[..7]).is_err(),
+            )
+        });
         // first, uncapped even under Miri: the allocation-end reads
         for_each_k_small!(alloc_end, usize, ctx);
         if ctx.lite {
             for_each_k_small!(iter_case, usize, ctx);
             for_each_k_small!(cons_case, usize, ctx);
             for_each_k_small!(cons_case, u128, ctx);
+            for_each_k_small128!(cons_case, ctx);
             for_each_k_small!(cons_owned, usize, ctx);
         } else {
             for_each_k64!(iter_case, usize, ctx);
